@@ -380,6 +380,9 @@ package algo
 //@ ghost @"col := off + f" gFb = B[off + f - Cdiag[off]]
 //@ ghost @"col := off + f" gM = (pchar == char ? 1 : 0)
 //@ assert @"bonus := bonusMatrix[prevClass][class]" char == foldc(caseSensitive, normalize, at(input, minIdx + off)) && T[off] == char
+// (the bonus of a position comes from the class of the character as it stands in the line, before case folding and
+//  accent normalisation: `fooÉcole` has a camelCase boundary at É)
+//@ assert @"bonus := bonusMatrix[prevClass][class]" class == cls(at(input, minIdx + off))
 //@ requires !DEBUG
 // (two products stated once, so that the slice bounds of the row views below are linear facts)
 //@ assert @"inGap := false" row >= width && row + width <= width * M
